@@ -115,6 +115,12 @@ def run_case(case, trace_lines=True):
             k += slow[1]
         for _ in range(k):
             sched.yield_point('work')
+        if case.get('nested_pool') and i == case['nested_pool'] - 1:
+            # the user function itself runs a small parallel map with the same worker count (a loader that fans out):
+            # the outer workers are busy while the inner tasks need workers of their own
+            inner = list(pu.lazy_parallel_map(lambda y: y + 1, [10, 20], buffer_size=w, max_workers=w, backend='t'))
+            if inner != [11, 21]:
+                raise RuntimeError(f'nested parallel map returned {inner}')
         if i in fn_fail:
             sched.event('end', i)
             raise mkexc(fn_fail[i], 'fn', i)
@@ -323,7 +329,7 @@ def describe(tr):
     return (f"workload {c['kind']} n={c['n']} workers={c['workers']} buffer={c['buffer']} "
             f"with_key={c.get('with_key', False)} src_fail={c.get('src_fail', {})} fn_fail={c.get('fn_fail', {})} "
             f"catch={c.get('catch', False)} stop={c.get('stop')} pauses={c.get('pauses', [])} "
-            + ''.join(f'{k}={c[k]} ' for k in ('vk', 'batched', 'dual', 'copy', 'src', 'shuffled', 'epochs', 'src_none', 'iter_fail') if c.get(k) is not None and c.get(k) is not False) +
+            + ''.join(f'{k}={c[k]} ' for k in ('vk', 'batched', 'dual', 'copy', 'src', 'shuffled', 'epochs', 'src_none', 'iter_fail', 'nested_pool') if c.get(k) is not None and c.get(k) is not False) +
             f"decisions={len(tr.sched.decisions)} preemptions={tr.sched.preemptions}")
 
 
@@ -536,7 +542,9 @@ def st_case(draw, profile):
         # examples that are arrays, exception objects, falsy, or refuse ==/bool()/len() altogether
         case['vk'] = draw(st.sampled_from(progs.VALUE_KINDS[1:]))
     if n and 'with_key' not in case and draw(st.integers(0, 4)) == 0:
-        case['src_none'] = draw(st.integers(0, n - 1))  # a None example in the SOURCE (input of the function)
+        case['src_none'] = draw(st.integers(0, n - 1))
+    if profile in ('plain', 'stop') and kind in ('lpm', 'pm', 'pf') and w >= 2 and 1 <= n <= 4 and draw(st.integers(0, 5)) == 0:
+        case['nested_pool'] = draw(st.integers(1, n))  # position (1-based) whose evaluation runs an inner pool  # a None example in the SOURCE (input of the function)
     if profile in ('plain', 'readahead') and kind != 'pf2' and draw(st.integers(0, 7)) == 0:
         case['buffer'] = b + 0.5  # buffer sizes are often computed (len(ds) / 16): not necessarily an int
     if profile == 'readahead' and kind == 'pf' and w == 1 and draw(st.integers(0, 9)) == 0:
